@@ -36,11 +36,12 @@ def strat1d(tier):
         lin = md["name"] == "convection"
         explicit = st.builds(lambda i, c: (i, c), st.sampled_from(ex), gen.f(0.05, 0.6))
         implicit = st.builds(lambda i, c: (i, c), st.sampled_from(im), gen.logf(-1, 1.5) if lin else gen.f(0.05, 2.0))
-        return st.builds(lambda n, L, x0, rough, num_r, num_s, s_r, s_s, fl, ic, ns, k: dict(model=md, mesh=dict(kind="uni", n=n, length=L, x0=x0), num=(num_r if rough else num_s),
-                                                                                          state=(s_r if rough else s_s), flux=fl, integ=ic[0], cfl=ic[1], nsteps=ns, shift=k),
+        return st.builds(lambda n, L, x0, rough, num_r, num_s, s_r, s_s, fl, ic, ns, k, dtl: dict(model=md, mesh=dict(kind="uni", n=n, length=L, x0=x0), num=(num_r if rough else num_s),
+                                                                                          state=(s_r if rough else s_s), flux=fl, integ=ic[0], cfl=ic[1], nsteps=ns, shift=k,
+                                                                                          dtlocal=(dtl and ic[0] != "gear")),
                          st.one_of(st.integers(2, 4), st.integers(2, nmax)), gen.logf(-1, 1), st.one_of(st.just(0.0), gen.f(-2, 2)), st.booleans(), gen.num_robust(), gen.num_any(),
                          gen.state_for(md, True, lnrange=1.0, machmax=1.5), gen.state_for(md, False, lnrange=0.7, machmax=1.2, smooth_amp=0.05),
-                         st.sampled_from(cases.flux_names(fmd)), st.one_of(explicit, explicit, implicit), st.integers(0, 6), st.integers(-40, 40))
+                         st.sampled_from(cases.flux_names(fmd)), st.one_of(explicit, explicit, implicit), st.integers(0, 6), st.integers(-40, 40), st.sampled_from([False, False, True]))
     return _models().flatmap(cfg)
 
 
@@ -88,12 +89,14 @@ def check1d(case):
         return dict(nontrivial=nt, labels=labels)
     qsc, _a = sim.state_scales(P.smd, P.prim)
     mk = lambda: cases.build_integrator(case["integ"], P.mesh, P.disc)
+    dtl = bool(case.get("dtlocal"))
+    directives = {"dtlocal": True} if dtl else {}
     # step by step exactly as solve() does, watching for the discontinuous Burgers tie
     sA, sB = mk(), mk()
     gA, gB = fA.copy(), fB.copy()
     for s_ in range(case["nsteps"]):
-        sim.advance(sA, P.disc, gA, case["cfl"])
-        sim.advance(sB, P.disc, gB, case["cfl"])
+        sim.advance(sA, P.disc, gA, case["cfl"], dtlocal=dtl)
+        sim.advance(sB, P.disc, gB, case["cfl"], dtlocal=dtl)
         if not (sim.admissible(P.smd, gA.data) and sim.admissible(P.smd, gB.data)):
             raise Skip("left_admissible_set")
         # a tie seen in the very first evaluation of first-order data is exact in both runs (same numbers); later ones are not
@@ -103,7 +106,7 @@ def check1d(case):
             watch.hit = False
     if not (sim.admissible(P.smd, gA.data) and sim.admissible(P.smd, gB.data)):
         raise Skip("left_admissible_set")
-    amp = sim.amplification(mk, fA, qsc, case["cfl"], case["nsteps"])
+    amp = sim.amplification(mk, fA, qsc, case["cfl"], case["nsteps"], directives)
     if not amp <= 1e3:
         raise Skip("unstable configuration (round-off amplified > 1e3)")
     tol = (1e-7 if implicit else 1e-12 * case["nsteps"]) * max(1.0, amp)
@@ -113,15 +116,15 @@ def check1d(case):
                 % (i, k, case["nsteps"], e, tol, case["integ"], case["cfl"], md["name"], case["flux"], case["num"].get("limiter", case["num"]["name"]), n))
     require(abs(gA.time - gB.time) <= 10 * tol * abs(gA.time), "solve-shift-time", "shifted run ends at time %r, unshifted at %r" % (gB.time, gA.time))
     # and through solve() itself
-    rA_ = mk().solve(fA, case["cfl"], stop={"maxit": case["nsteps"]})[-1]
-    rB_ = mk().solve(fB, case["cfl"], stop={"maxit": case["nsteps"]})[-1]
+    rA_ = mk().solve(fA, case["cfl"], stop={"maxit": case["nsteps"]}, directives=directives)[-1]
+    rB_ = mk().solve(fB, case["cfl"], stop={"maxit": case["nsteps"]}, directives=directives)[-1]
     if watch is not None:
         watch.release()
     for i in range(len(qA)):
         e = float(np.max(np.abs(np.roll(rA_.data[i], k) - rB_.data[i]))) / qsc[i]
         require(e <= tol, "solve-shift", "variable %d: solve(roll(q0,%d)) differs from roll(solve(q0)) by %.3g (relative; tol %.3g; %s, cfl=%g, %s/%s, %s, n=%d, %d steps)"
                 % (i, k, e, tol, case["integ"], case["cfl"], md["name"], case["flux"], case["num"].get("limiter", case["num"]["name"]), n, case["nsteps"]))
-    return dict(nontrivial=nt, labels=labels + ["implicit" if implicit else "explicit"])
+    return dict(nontrivial=nt, labels=labels + ["implicit" if implicit else "explicit", "dtlocal" if dtl else "dtglobal"])
 
 
 # ---------------------------------------------------------------- 2-D
